@@ -109,12 +109,11 @@ fn cursor_valid_under_bm25(reader: &searchlite_core::api::IndexReader, base: &Va
   matches!(paging::call(reader, &req), Call::Ok(_))
 }
 
-/// Score bits of the document the last cursor points at, observed over un-cursored variants of the
-/// same request (limits 1..big, all execution strategies): true when they are not all equal
-/// but within a few ULPs of each other.
-fn cursor_doc_score_varies(reader: &searchlite_core::api::IndexReader, base: &Value, big: usize, w: &paging::Walk) -> bool {
-  let Some(doc) = w.pages.last().and_then(|p| p.hits.last()).map(|h| h.doc_id.clone()) else { return false };
-  let mut bits: Vec<u32> = Vec::new();
+/// Score bits of one document observed over un-cursored variants of the same request (limits
+/// 1..big, all execution strategies) plus `seen` (bits already observed in the walk): true when
+/// they are not all equal but within a few ULPs of each other.
+fn doc_score_varies(reader: &searchlite_core::api::IndexReader, base: &Value, big: usize, doc: &str, seen: &[u32]) -> bool {
+  let mut bits: Vec<u32> = seen.to_vec();
   for exec in [("bm25", None), ("wand", None), ("bmw", None), ("bmw", Some(1usize)), ("bmw", Some(3usize))] {
     for limit in [1usize, 2, 3, 4, 5, 6, 7, 8, big] {
       let mut req = base.clone();
@@ -131,6 +130,12 @@ fn cursor_doc_score_varies(reader: &searchlite_core::api::IndexReader, base: &Va
   hi != lo && hi - lo <= 8
 }
 
+/// The document the last cursor of a stopped walk points at has a request-dependent score.
+fn cursor_doc_score_varies(reader: &searchlite_core::api::IndexReader, base: &Value, big: usize, w: &paging::Walk) -> bool {
+  let Some((doc, walk_bits)) = w.pages.last().and_then(|p| p.hits.last()).map(|h| (h.doc_id.clone(), h.score.to_bits())) else { return false };
+  doc_score_varies(reader, base, big, &doc, &[walk_bits])
+}
+
 /// Index of the first page whose ids are not the expected slice of the unpaged result.
 fn first_deviation(w: &paging::Walk, full: &[HitSig], page: usize) -> Option<usize> {
   let mut offset = 0usize;
@@ -145,13 +150,25 @@ fn first_deviation(w: &paging::Walk, full: &[HitSig], page: usize) -> Option<usi
   None
 }
 
-fn jitter_at_first_deviation(w: &paging::Walk, full: &[HitSig], page: usize) -> bool {
+fn jitter_at_first_deviation(reader: &searchlite_core::api::IndexReader, base: &Value, big: usize, w: &paging::Walk, full: &[HitSig], page: usize) -> bool {
   let Some(i) = first_deviation(w, full, page) else { return false };
   let mut near: Vec<HitSig> = paging::hit_sigs(&w.pages[i]);
   if i > 0 {
     near.extend(paging::hit_sigs(&w.pages[i - 1]));
   }
-  has_ulp_jitter(full, &near)
+  if has_ulp_jitter(full, &near) {
+    return true;
+  }
+  // documents expected on the deviating page (possibly never shown by the walk at all)
+  let offset: usize = w.pages.iter().take(i).map(|p| p.hits.len()).sum();
+  let mut cands: Vec<String> = full.iter().skip(offset).take(page).map(|h| h.0.clone()).collect();
+  cands.extend(near.iter().map(|h| h.0.clone()));
+  cands.sort();
+  cands.dedup();
+  cands.iter().take(8).any(|d| {
+    let seen: Vec<u32> = full.iter().chain(near.iter()).filter(|h| &h.0 == d).map(|h| h.1).collect();
+    doc_score_varies(reader, base, big, d, &seen)
+  })
 }
 
 /// Some id carries score bits 1..8 ULPs away from its bits in the reference list.
@@ -387,7 +404,7 @@ fn main() {
           // the same page request answered by exhaustive execution IS the expected slice: the paging
           // logic is right and the block-max pruned top-k of the page request lost/reordered hits (C09 territory)
           format!("pruned-page-differs-from-exhaustive-page:{}:{ck}", exec.0)
-        } else if jitter_at_first_deviation(&w, &full_sigs, page) {
+        } else if paging::sort_uses_score(&sort) && jitter_at_first_deviation(&reader, &base, big, &w, &full_sigs, page) {
           // a document on (or just before) the first deviating page has a score 1..8 ULPs away from its
           // score in the unpaged result: near-ties are ordered differently by different requests, so
           // pages repeat / skip / reorder hits
